@@ -24,41 +24,64 @@ func TestSharedCacheDifferentLimit4GiB(t *testing.T) {
 	if s, _ := evid.Shard(); s != 0 {
 		t.Skip()
 	}
-	m := &wasmenc.Module{Mems: [][]byte{wasmenc.Limits(1, -1, false)}}
-	// f(): memory.grow(65535); i32.store(96, 7); i32.load(96) + memory.size
-	m.ExportFunc("f", m.AddFunc(nil, []byte{wasmenc.I32}, nil, wasmenc.NewB().
-		I32Const(65535).MemoryGrow().Drop().I32Const(96).I32Const(7).Mem(0x36, 2, 0).I32Const(96).Mem(0x28, 2, 0).MemorySize().Raw(0x6a).Bytes()))
-	bin := m.Encode()
 	ctx := context.Background()
-	run := func(shared bool) string {
-		var cache wazero.CompilationCache
-		if shared {
-			cache = wazero.NewCompilationCache()
-			defer cache.Close(ctx)
-			a := wazero.NewRuntimeWithConfig(ctx, wz.Config("compiler").WithMemoryLimitPages(100).WithCompilationCache(cache))
-			if _, err := a.CompileModule(ctx, bin); err != nil {
-				return "harness: " + err.Error()
+	// variants: the guest defines its memory / imports it (memory import first / after a function import)
+	for _, variant := range []string{"local", "imported", "imported-after-func-import"} {
+		m := &wasmenc.Module{}
+		owner := &wasmenc.Module{Mems: [][]byte{wasmenc.Limits(1, -1, false)}}
+		owner.Exports = append(owner.Exports, wasmenc.Export{Name: "memory", Kind: wasmenc.KMem, Idx: 0})
+		owner.ExportFunc("nop", owner.AddFunc(nil, nil, nil, wasmenc.NewB().Nop().Bytes()))
+		switch variant {
+		case "local":
+			m.Mems = [][]byte{wasmenc.Limits(1, -1, false)}
+		case "imported":
+			m.Imports = append(m.Imports, wasmenc.Import{Mod: "owner", Name: "memory", Kind: wasmenc.KMem, Desc: wasmenc.Limits(1, -1, false)})
+		default:
+			m.ImportFunc("owner", "nop", nil, nil)
+			m.Imports = append(m.Imports, wasmenc.Import{Mod: "owner", Name: "memory", Kind: wasmenc.KMem, Desc: wasmenc.Limits(1, -1, false)})
+		}
+		// f(): memory.grow(65535); i32.store(96, 7); i32.load(96) + memory.size
+		m.ExportFunc("f", m.AddFunc(nil, []byte{wasmenc.I32}, nil, wasmenc.NewB().
+			I32Const(65535).MemoryGrow().Drop().I32Const(96).I32Const(7).Mem(0x36, 2, 0).I32Const(96).Mem(0x28, 2, 0).MemorySize().Raw(0x6a).Bytes()))
+		bin, ownerBin := m.Encode(), owner.Encode()
+		run := func(shared bool) string {
+			var cache wazero.CompilationCache
+			if shared {
+				cache = wazero.NewCompilationCache()
+				defer cache.Close(ctx)
+				a := wazero.NewRuntimeWithConfig(ctx, wz.Config("compiler").WithMemoryLimitPages(100).WithCompilationCache(cache))
+				defer a.Close(ctx)
+				if _, err := a.CompileModule(ctx, ownerBin); err != nil {
+					return "harness: " + err.Error()
+				}
+				if _, err := a.CompileModule(ctx, bin); err != nil {
+					return "harness: " + err.Error()
+				}
 			}
-			defer a.Close(ctx)
+			cfg := wz.Config("compiler")
+			if shared {
+				cfg = cfg.WithCompilationCache(cache)
+			}
+			b := wazero.NewRuntimeWithConfig(ctx, cfg)
+			defer b.Close(ctx)
+			if variant != "local" {
+				if _, err := b.InstantiateWithConfig(ctx, ownerBin, wazero.NewModuleConfig().WithName("owner")); err != nil {
+					return "instantiate owner: " + err.Error()
+				}
+			}
+			mod, err := b.InstantiateWithConfig(ctx, bin, wazero.NewModuleConfig().WithName("guest"))
+			if err != nil {
+				return "instantiate: " + err.Error()
+			}
+			res, out := wz.SafeCall(ctx, mod.ExportedFunction("f"))
+			return fmt.Sprintf("%v %v", out, res)
 		}
-		cfg := wz.Config("compiler")
-		if shared {
-			cfg = cfg.WithCompilationCache(cache)
+		own, shared := run(false), run(true)
+		c := map[string]any{"known": "shared-cache-different-limit-4gib", "variant": variant}
+		if own != shared {
+			evid.Violation("shared-cache-limit", c, "a guest (%s memory) growing its memory to 65536 pages behaves differently when its runtime shares the compilation cache with a runtime of a smaller memory limit: own cache %s, shared cache %s", variant, own, shared)
+			t.Fail()
 		}
-		b := wazero.NewRuntimeWithConfig(ctx, cfg)
-		defer b.Close(ctx)
-		mod, err := b.Instantiate(ctx, bin)
-		if err != nil {
-			return "instantiate: " + err.Error()
-		}
-		res, out := wz.SafeCall(ctx, mod.ExportedFunction("f"))
-		return fmt.Sprintf("%v %v", out, res)
+		evid.Case(evid.Hash64("shared-cache-limit", variant), true, "shared-cache-different-memory-limit-4GiB")
 	}
-	own, shared := run(false), run(true)
-	c := map[string]any{"known": "shared-cache-different-limit-4gib"}
-	if own != shared {
-		evid.Violation("shared-cache-limit", c, "a guest growing its memory to 65536 pages behaves differently when its runtime shares the compilation cache with a runtime of a smaller memory limit: own cache %s, shared cache %s", own, shared)
-		t.Fail()
-	}
-	evid.Case(evid.Hash64("shared-cache-limit"), true, "shared-cache-different-memory-limit-4GiB")
 }
